@@ -129,14 +129,21 @@ def run(ctx):
                     else:
                         continue
                     break
-            # write_trainables stores exactly what was simulated
+            # write_trainables stores exactly what was simulated, and does not touch rows outside the
+            # trainables: a row set() AFTER the last integrate (the module's cached arrays are stale
+            # at that moment) must keep its value
             try:
+                others = [r for r in range(n) if r not in rows and not np.isnan(arrC[key][r])]
+                x_other = float(x) * 1.25
                 with quiet():
+                    if others:
+                        C.select(nodes=[others[0]]).set(key, x_other)
                     C.write_trainables(params)
                 tab = C.nodes[key].to_numpy()
-                if not all((tab[r] == arrC[key][r]) or (np.isnan(tab[r]) and np.isnan(arrC[key][r])) for r in range(n)):
-                    viol.append(dict(case, kind="write_trainables stored other values than were simulated",
-                                     table=[float(t) for t in tab], simulated=[float(t) for t in arrC[key]]))
+                want_tab = [x_other if (others and r == others[0]) else arrC[key][r] for r in range(n)]
+                if not all((tab[r] == want_tab[r]) or (np.isnan(tab[r]) and np.isnan(want_tab[r])) for r in range(n)):
+                    viol.append(dict(case, kind="write_trainables stored other values than were simulated, or reverted a row outside the trainables",
+                                     table=[float(t) for t in tab], expected=[float(t) for t in want_tab], row_set_after_integrate=others[:1]))
                 evals += 1
             except Exception as ex:
                 viol.append(dict(case, kind="write_trainables raised", error=repr(ex)[:300]))
@@ -204,8 +211,13 @@ def run(ctx):
             es = [e for e, nm in enumerate(names) if nm == ty]
             pick = sorted(rng.sample(es, rng.randint(1, len(es))))
             x = 0.61 if key[-1] in "sc" else 3.5e-4
-            how = rng.choice(["type", "select"])
-            mk = (lambda m: getattr(m, ty).edge([es.index(e) for e in pick])) if how == "type" else (lambda m: m.select(edges=pick))
+            how = rng.choice(["type", "select", "mixed", "mixed"])
+            others_e = [e for e in range(len(names)) if e not in es]
+            if how == "mixed" and not others_e:
+                how = "select"
+            # "mixed": the view also contains a synapse of ANOTHER type (which does not have the key)
+            view_edges = sorted(pick + ([rng.choice(others_e)] if how == "mixed" else []))
+            mk = (lambda m: getattr(m, ty).edge([es.index(e) for e in pick])) if how == "type" else (lambda m: m.select(edges=view_edges))
             case = {"synapse_types": names, "key": key, "edges": pick, "via": how, "value": x}
             distinct.add((tuple(names), key, tuple(pick), how))
 
@@ -245,12 +257,17 @@ def run(ctx):
                         viol.append(dict(case, kind=f"{nm}: the value did not reach exactly the selected synapses", array=k2,
                                          got=[float(v) for v in a], expected=want))
                         break
+            rest = [e for e in es if e not in pick]
+            x_rest = float(x) * 1.25
             with quiet():
+                if rest:
+                    C.select(edges=[rest[0]]).set(key, x_rest)       # after the last integrate: cached arrays are stale
                 C.write_trainables(params)
             tab = [float(C.edges.loc[e, key]) for e in es]
-            if tab != [float(v) for v in arrC[key]]:
-                viol.append(dict(case, kind="write_trainables stored other values than were simulated (edge key)", table=tab,
-                                 simulated=[float(v) for v in arrC[key]]))
+            want_tab = [x_rest if (rest and e == rest[0]) else float(v) for e, v in zip(es, arrC[key])]
+            if tab != want_tab:
+                viol.append(dict(case, kind="write_trainables stored other values than were simulated, or reverted a synapse outside the trainables (edge key)",
+                                 table=tab, expected=want_tab))
         except Exception as ex:
             import traceback
             viol.append({"kind": "edge-key set / data_set / make_trainable raised", "error": repr(ex)[:300], "trace": traceback.format_exc()[-500:]})
